@@ -98,11 +98,19 @@ func (c *Ctx) Unresolved(rule, what string) {
 	c.Obls = append(c.Obls, Obligation{Rule: rule, Construct: "UNRESOLVED-ANCHOR " + what, OK: false, Detail: "anchor could not be resolved in the loaded program; the rule cannot decide"})
 }
 
+// Floor is the anti-vacuity guard of a rule: `floor` is the number of instances confirmed by hand on the reference tree.
+// The guard fires when fewer than half of them (rounded up, at least one) are found: a rule whose finder no longer
+// matches the code must not pass silently, but merging two duplicated sites into one is not a reason to alarm (the
+// neutral waves showed floors equal to the current count to be the commonest false alarm).
 func (c *Ctx) Floor(rule, what string, got, floor int) {
 	c.Floors = append(c.Floors, FloorCheck{rule, what, got, floor})
-	if got < floor {
+	eff := floor
+	if floor > 1 {
+		eff = (floor + 1) / 2
+	}
+	if got < eff {
 		c.Obls = append(c.Obls, Obligation{Rule: rule, Construct: "FLOOR " + what, OK: false,
-			Detail: fmt.Sprintf("rule matched %d instances of %q, below the hand-confirmed floor %d: the rule would pass vacuously", got, what, floor)})
+			Detail: fmt.Sprintf("rule matched %d instances of %q, fewer than half of the %d confirmed by hand: the rule would pass vacuously", got, what, floor)})
 	}
 }
 
